@@ -118,6 +118,31 @@ def random_worlds(cases, n):
     return added
 
 
+# Pairs a property's check adds to the enumerated worlds whatever the fault budget: (dimension, dimension, values of the second or None = all).
+# C03: a collateral signer the trusted root did not certify, presented while the time set is outside that signer's (or its root's) validity
+# period -- the path check must refuse it for what it is, whatever it makes of the dates.
+CROSS = {
+    "C03": [("tcbSigner", "time", ["tcbSigner_preNB", "tcbSigner_before", "tcbSigner_at", "tcbSigner_after", "tcbRoot_before", "tcbRoot_at", "tcbRoot_after"]),
+            ("qeSignerDoc", "time", ["qeSigner_preNB", "qeSigner_before", "qeSigner_at", "qeSigner_after", "qeRoot_before", "qeRoot_at", "qeRoot_after"])],
+}
+
+
+def cross_worlds(cases, prop):
+    dims = spec_dims()
+    nid = max([c["id"] for c in cases] + [0])
+    added = 0
+    for a, b, bvals in CROSS.get(prop, []):
+        for av in dims[a][1:]:
+            for bv in (bvals or dims[b][1:]):
+                if bv not in dims[b]:
+                    raise C.Infra("cross world names an unknown value %s=%s" % (b, bv))
+                nid += 1
+                added += 1
+                cases.append(dict(id=nid, w={a: av, b: bv}, x=dict(lenient=True),
+                                  runs=[dict(gc=g, cr=c_, now="set", entry=e) for g, c_ in ((False, False), (True, False), (True, True)) for e in ("msg", "raw")]))
+    return added
+
+
 def split_trace(path, wd, max_events=25000):
     """Split an ndjson trace at case boundaries into chunks of at most max_events events."""
     chunks, cur, cur_case, n = [], [], None, 0
@@ -205,6 +230,7 @@ def run(prop, tier, judge_prop=None, level="model_checking", extra_cov=None, cas
     cases = group_cases(r.cases)
     if cases_filter:
         cases = [c for c in cases if cases_filter(c)]
+    n_cross = cross_worlds(cases, prop)
     n_random = random_worlds(cases, 4000 if tier == "thorough" else 300)
     cases_path = os.path.join(wd, "cases.jsonl")
     with open(cases_path, "w") as f:
@@ -265,6 +291,7 @@ def run(prop, tier, judge_prop=None, level="model_checking", extra_cov=None, cas
         "events_judged": summ["events"],
         "worlds": len(cases),
         "random_worlds_beyond_budget": n_random,
+        "explicit_pair_worlds": n_cross,
         "exhaustive": True,
         "model_constants": cfg_text(prop, tier, invs=[]).strip().splitlines()[1:5],
         "invariants_checked_on_model": ALL_INV,
